@@ -243,6 +243,33 @@ def check_all(ctx: Ctx, fi: FuncInfo) -> None:
         ctx.violation("C02-S1", fi, loop, f"round `{counter}` does not enumerate self.of_length({counter})")
         return
     ctx.ok("C02-S1", fi.where, f"_all visits of_length({counter}) for {counter} = 0, 1, 2, ...", loop, fi)
+    # every element of the visited level is yielded: either `yield from <level>` directly, or the peeked first
+    # element followed by the rest of the same iterator
+    gens = {unparse(st.targets[0]): st for st in loop.body if isinstance(st, ast.Assign) and any(sub is srcs[0] for sub in ast.walk(st.value))}
+    yields = [st for st in loop.body if isinstance(st, ast.Expr) and isinstance(st.value, (ast.Yield, ast.YieldFrom))]
+    peeks = {}
+    for st in loop.body:
+        if isinstance(st, (ast.Assign, ast.AnnAssign)) and st.value is not None and isinstance(st.value, ast.Call) and call_name(st.value) == ("next",) and len(st.value.args) == 2:
+            tgt = st.target if isinstance(st, ast.AnnAssign) else st.targets[0]
+            peeks[unparse(tgt)] = unparse(st.value.args[0])
+    direct = any(isinstance(y.value, ast.YieldFrom) and any(sub is srcs[0] for sub in ast.walk(y.value)) for y in yields)
+    ytxt = [("from " if isinstance(y.value, ast.YieldFrom) else "") + (unparse(y.value.value) if y.value.value is not None else "") for y in yields]
+    peeked = False
+    for first, g in peeks.items():
+        if g in gens and ytxt == [first, f"from {g}"]:
+            peeked = True
+            # the sentinel test must come between the peek and the yield
+            guard_pos = [i for i, st in enumerate(loop.body) if isinstance(st, ast.If) and unparse(st.test) in (f"{first} is None", f"not {first}")
+                         and st.body and isinstance(st.body[-1], (ast.Break, ast.Return, ast.Continue))]
+            ypos = loop.body.index(yields[0])
+            if not guard_pos or guard_pos[0] > ypos:
+                ctx.violation("C02-S1", fi, yields[0], f"the peeked element `{first}` is yielded without testing the exhaustion sentinel first: None is reported as a member for an empty level")
+                return
+    if direct or peeked:
+        ctx.ok("C02-S1", fi.where, "every element of the visited level is yielded, in the level's order", yields[0], fi)
+    else:
+        ctx.violation("C02-S1", fi, loop, f"the loop does not yield every element of of_length({counter}) (yields: {ytxt})")
+        return
     # early exits
     breaks = [n for n in ast.walk(loop) if isinstance(n, (ast.Break, ast.Return))]
     for br in breaks:
@@ -300,6 +327,8 @@ def _variants():
         V("up-to-length-short", replace_expr(PS, "Av.up_to_length", "range(length + 1)", "range(1, length + 1)"), "fire", "C02-S1"),
         V("is-subclass-any", replace_expr(PS, "Av.is_subclass", "all((p1 not in self for p1 in other.basis))", "any((p1 not in self for p1 in other.basis))"), "fire", "C02-S1"),
         V("is-subclass-reversed-roles", replace_expr(PS, "Av.is_subclass", "all((p1 not in self for p1 in other.basis))", "all((p1 not in other for p1 in self.basis))"), "fire", "C02-S1"),
+        V("all-drops-first", replace_stmt(PS, "Av._all", "yield first", ""), "fire", "C02-S1"),
+        V("all-drops-rest", replace_stmt(PS, "Av._all", "yield from gen", ""), "fire", "C02-S1"),
         V("all-skips-lengths", replace_stmt(PS, "Av._all", "length += 1", "length += 2"), "fire", "C02-S1"),
         V("all-starts-at-1", replace_stmt(PS, "Av._all", "length = 0", "length = 1"), "fire-or-undecided", "C02-S1"),
         V("count-bypasses-ensure", replace_stmt(PS, "Av.count", "return len(self._get_level(length))", "return len(self.cache[length])"), "fire", "C02-S1"),
@@ -384,7 +413,7 @@ def rule_e1(ctx: Ctx, m: SharedModel) -> None:
         ctx.violation("C02-E1", mesh_f, ext[0].stmt if ext else mesh_f.node, "mesh levels are not `{p for p in Perm.of_length(i) if p.avoids(*self.basis)}` for i = len(self.cache) .. requested level")
     # dispatch
     disp = [st for st in ens.body if isinstance(st, ast.If)]
-    if len(disp) == 1 and unparse(disp[0].test) == "isinstance(self.basis, Basis)" and cls_f.name in unparse(disp[0].body[0]) and mesh_f.name in unparse(disp[0].orelse[0]):
+    if len(disp) == 1 and unparse(disp[0].test) == "isinstance(self.basis, Basis)" and len(disp[0].body) == 1 and len(disp[0].orelse) == 1 and unparse(disp[0].body[0]) == f"self.{cls_f.name}({ens.params[1]})" and unparse(disp[0].orelse[0]) == f"self.{mesh_f.name}({ens.params[1]})":
         ctx.ok("C02-E1", ens.where, "classical bases -> insertion construction, everything else -> filtering", disp[0], ens)
     elif len(disp) == 1 and unparse(disp[0].test) == "isinstance(self.basis, Basis)":
         ctx.violation("C02-E1", ens, disp[0], "the two level constructions are dispatched to the wrong kind of basis")
